@@ -33,7 +33,7 @@ def gen_case(rng):
             ops.append(["retime", rng.choice([15.0, 161.029, 3600.0, -42.5])])
         elif r < 0.9:
             # the intensities change after the frame (or its Waterfall) came into being: what is written must be the current data
-            ops.append(["modify", rng.choice(["inplace", "rebind", "signal", "zero"])])
+            ops.append(["modify", rng.choice(["inplace", "rebind", "signal", "zero", "rename", "rename"])])
         elif r < 0.95:
             ops.append(["save", rng.choice(["fil", "h5"])])
         else:
@@ -72,7 +72,7 @@ def run(ctx):
     rng = ctx.rng
     quick = ctx.tier == "quick"
     ctx.rule = ("frames 3-8 (30 %: 15-60) x 8-64 (and, through .fil only, 1-2 integrations and / or 1-2 channels), realistic (2.79 Hz / 18.25 s / 6 GHz) and integral headers, both orientations; histories of 0-5 operations from "
-                "get_waterfall, copy (continuing with the copy or the original), slice, dedrift, re-timing (t_start assigned, as a cadence does), modification of the intensities (in place, re-bound array, injected signal, zero_data), intermediate save, save-and-reload; then save as "
+                "get_waterfall, copy (continuing with the copy or the original), slice, dedrift, re-timing (t_start assigned, as a cadence does), modification of the intensities (in place, re-bound array, injected signal, zero_data) or of the source name, intermediate save, save-and-reload; then save as "
                 ".fil and .h5 and read back by setigen, blimpy and the waterfall_utils helpers; non-trivial = non-empty history; distinct = distinct case")
     ctx.assumptions = ["blimpy 2.1.4 / h5py are the modelled environment; blimpy needs >= 3 integrations and channels for .h5",
                        "intensities are compared as float32; frequency axes to 1e-9 relative (MHz <-> Hz scaling); start times to 1e-3 s (astropy MJD conversion)"]
